@@ -63,6 +63,9 @@ enum Op {
 	RangeDigest(u64, u64),
 	Lookup(Coord),
 	Stream(u8, (u32, u32, u32, u32)),
+	/// a caller that opens the stream, takes that many tiles and drops it (no result to compare:
+	/// it is there for what it does to the other callers and to the calls after it)
+	StreamAbandon(u8, (u32, u32, u32, u32), u8),
 }
 
 /// result summary that can be compared
@@ -121,6 +124,17 @@ async fn run_op(h: &Handle, op: &Op) -> Res {
 			let mut v: Vec<(Coord, Vec<u8>)> = r.get_bbox_tile_stream(bbox).await.collect().await.into_iter().map(|(c, b)| (Coord::from_vt(&c), b.into_vec())).collect();
 			v.sort();
 			Res::Tiles(v)
+		}
+		(Handle::Tiles(r), Op::StreamAbandon(z, b, take)) => {
+			let bbox = TileBBox::new(*z, b.0, b.1, b.2, b.3).unwrap();
+			let mut s = r.get_bbox_tile_stream(bbox).await;
+			for _ in 0..*take {
+				if s.next().await.is_none() {
+					break;
+				}
+			}
+			drop(s);
+			Res::None
 		}
 		_ => unreachable!(),
 	}
@@ -205,6 +219,7 @@ fn oracle(case: &Case, obs: &mut Obs) -> Result<(), Fail> {
 			let coords: Vec<Coord> = set.tiles.keys().copied().collect();
 			let boxes = set.tight_boxes();
 			let is_versatiles = matches!(leaf.kind, LeafKind::Repo(Target::Versatiles) | LeafKind::Enc(Target::Versatiles, _));
+			let mut abandoned = 0u64;
 			for t in 0..callers {
 				let mut m = Mix::new(case.seed as u64 ^ ((t as u64) << 32) ^ 0xABCDEF);
 				let mut plan = vec![];
@@ -215,6 +230,10 @@ fn oracle(case: &Case, obs: &mut Obs) -> Result<(), Fail> {
 						let mut want: Vec<(Coord, Vec<u8>)> = set.nonempty().filter(|(c, _)| c.z == *z).map(|(c, b)| (*c, b.clone())).collect();
 						want.sort();
 						plan.push((Op::Stream(*z, *b), Res::Tiles(want)));
+					} else if k == 1 && is_versatiles && !boxes.is_empty() && m.below(2) == 0 {
+						let (z, b) = boxes.iter().nth(m.below(boxes.len() as u64) as usize).unwrap();
+						plan.push((Op::StreamAbandon(*z, *b, m.below(4) as u8), Res::None));
+						abandoned += 1;
 					} else if k < 4 {
 						// a coordinate next to a stored tile, usually missing
 						let c = coords[m.below(coords.len() as u64) as usize];
@@ -237,6 +256,10 @@ fn oracle(case: &Case, obs: &mut Obs) -> Result<(), Fail> {
 					}
 				}
 				plans.push(plan);
+			}
+			if abandoned > 0 {
+				obs.label("with-abandoned-streams".to_string());
+				obs.count("abandoned-streams", abandoned);
 			}
 			handle = Handle::Tiles(Arc::new(reader));
 		}
@@ -433,7 +456,7 @@ fn main() {
 	let mut check = Check::from_args(
 		"C13",
 		"exploration",
-		"subjects: raw files of 1 KiB-4 MB read through DataReaderFile::read_range (ranges of 0..200 000 bytes incl. ranges at and beyond the end of the file), raw files of 9-40 MiB read in ranges of up to 16 MiB (compared by length and hash) and container fixtures (versatiles, pmtiles, tar; written by the repository or the harness encoders) read through get_tile_data (stored and missing coordinates) and, for versatiles, level streams; 2..16 callers start behind a barrier as OS threads with their own runtimes or as tasks on one multi-threaded runtime and issue generated call lists; oracle: every call's result equals the result computed sequentially from the in-memory copy (bytes, None, or error class); non-trivial = at least two callers with >= 50 calls each (large-range cases: at least two callers)",
+		"subjects: raw files of 1 KiB-4 MB read through DataReaderFile::read_range (ranges of 0..200 000 bytes incl. ranges at and beyond the end of the file), raw files of 9-40 MiB read in ranges of up to 16 MiB (compared by length and hash) and container fixtures (versatiles, pmtiles, tar; written by the repository or the harness encoders) read through get_tile_data (stored and missing coordinates) and, for versatiles, level streams (read to the end, or dropped by their caller after 0-3 tiles); 2..16 callers start behind a barrier as OS threads with their own runtimes or as tasks on one multi-threaded runtime and issue generated call lists; oracle: every call's result equals the result computed sequentially from the in-memory copy (bytes, None, or error class); non-trivial = at least two callers with >= 50 calls each (large-range cases: at least two callers)",
 	);
 	check.assume("the kernel schedule is not controlled: this is stress exploration over real interleavings, not schedule enumeration");
 	check.workers = check.workers.min(4);
